@@ -141,8 +141,10 @@ fn invalid_zone_text(zone: &str, version: u32, variant: u8) -> String {
     }
 }
 
-fn sentinel_text(step: usize) -> String {
-    format!("$ORIGIN {SENTINEL}\n$TTL 1\n@ IN SOA ns hostmaster {step} 3600 600 86400 1\n@ IN NS ns\nns IN A 127.0.0.1\n@ IN TXT \"step={step}\"\n")
+/// `token` is unique per history, so that a daemon of another (parallel) history that
+/// happens to own the port this one wanted is never mistaken for ours.
+fn sentinel_text(step: usize, token: &str) -> String {
+    format!("$ORIGIN {SENTINEL}\n$TTL 1\n@ IN SOA ns hostmaster {step} 3600 600 86400 1\n@ IN NS ns\nns IN A 127.0.0.1\n@ IN TXT \"step={step} id={token}\"\n")
 }
 
 struct Clock {
@@ -271,8 +273,8 @@ impl Daemon {
     }
 
     /// Polls the sentinel zone until it reports `step`.
-    fn wait_for_step(&mut self, step: usize, limit: Duration) -> Result<(), String> {
-        let want = format!("step={step}");
+    fn wait_for_step(&mut self, step: usize, token: &str, limit: Duration) -> Result<(), String> {
+        let want = format!("step={step} id={token}");
         let deadline = Instant::now() + limit;
         let mut id = 0x5000u16;
         let mut last = String::from("no answer");
@@ -315,12 +317,15 @@ impl Daemon {
 }
 
 fn free_port() -> Option<u16> {
-    let l = std::net::TcpListener::bind((Ipv4Addr::LOCALHOST, 0)).ok()?;
-    let port = l.local_addr().ok()?.port();
-    let u = UdpSocket::bind((Ipv4Addr::LOCALHOST, port)).ok()?;
-    drop(u);
-    drop(l);
-    Some(port)
+    // a port that is free for TCP and for UDP (the UDP port of the same number may be taken)
+    for _ in 0..200 {
+        let Ok(l) = std::net::TcpListener::bind((Ipv4Addr::LOCALHOST, 0)) else { continue };
+        let Ok(addr) = l.local_addr() else { continue };
+        if UdpSocket::bind((Ipv4Addr::LOCALHOST, addr.port())).is_ok() {
+            return Some(addr.port());
+        }
+    }
+    None
 }
 
 fn infra(msg: &str) -> ! {
@@ -363,6 +368,7 @@ pub fn oracle(case: &Case, st: &mut Stats) -> Verdict {
         infra("the daemon binary has not been built (scripts/run_C31.sh builds it)");
     }
     let n = DIR_COUNTER.fetch_add(1, Ordering::SeqCst);
+    let token = format!("{}-{n}", std::process::id());
     let dir = PathBuf::from(format!("{WORK}/{}-{n}", std::process::id()));
     let _ = fs::remove_dir_all(&dir);
     if let Err(e) = fs::create_dir_all(&dir) {
@@ -439,7 +445,7 @@ pub fn oracle(case: &Case, st: &mut Stats) -> Verdict {
         let mut configured: Vec<usize> = (0..UNIVERSE.len()).filter(|i| step.zones[*i].configured).collect();
         configured.sort_by_key(|i| (step.order.get(*i).copied().unwrap_or(0), *i));
         let sentinel_path = dir.join("sentinel.zone");
-        if let Err(e) = write_with_mtime(&sentinel_path, &sentinel_text(k), clock.next()) {
+        if let Err(e) = write_with_mtime(&sentinel_path, &sentinel_text(k, &token), clock.next()) {
             infra(&format!("cannot write the sentinel zone: {e}"));
         }
         let mut zones: Vec<(String, PathBuf)> = configured.iter().map(|i| (UNIVERSE[*i].to_string(), paths[*i].clone())).collect();
@@ -486,7 +492,16 @@ pub fn oracle(case: &Case, st: &mut Stats) -> Verdict {
                     infra(&format!("cannot write the configuration: {e}"));
                 }
                 let log = fs::File::create(dir.join("daemon.log")).ok();
-                let child = Command::new(DAEMON)
+                let mut command = Command::new(DAEMON);
+                // the daemon must not outlive the checker, whatever happens to the checker
+                unsafe {
+                    use std::os::unix::process::CommandExt;
+                    command.pre_exec(|| {
+                        libc::prctl(libc::PR_SET_PDEATHSIG, libc::SIGKILL);
+                        Ok(())
+                    });
+                }
+                let child = command
                     .arg("run")
                     .arg("--config")
                     .arg(dir.join("config.toml"))
@@ -505,7 +520,7 @@ pub fn oracle(case: &Case, st: &mut Stats) -> Verdict {
                 };
                 let _ = sock.set_read_timeout(Some(Duration::from_millis(10)));
                 let mut d = Daemon { child, port, sock };
-                match d.wait_for_step(k, Duration::from_secs(15)) {
+                match d.wait_for_step(k, &token, Duration::from_secs(15)) {
                     Ok(()) => {
                         up = Some(d);
                         break;
@@ -535,7 +550,7 @@ pub fn oracle(case: &Case, st: &mut Stats) -> Verdict {
             unsafe {
                 libc::kill(d.child.id() as i32, libc::SIGHUP);
             }
-            if let Err(e) = d.wait_for_step(k, Duration::from_secs(20)) {
+            if let Err(e) = d.wait_for_step(k, &token, Duration::from_secs(20)) {
                 let log = fs::read_to_string(dir.join("daemon.log")).unwrap_or_default();
                 if e.starts_with("the daemon exited") {
                     fail!("daemon-died-on-reload", "step {k}: {e}; log:\n{log}");
